@@ -282,6 +282,41 @@ def run(tier, replay=None):
                     chk.violation("exchange move violates detailed balance for the pair of tempered chains",
                                   {**case, "lhs": lhs, "rhs": rhs}, "C01/exchange/db")
 
+            # the step itself: with the uniform draw forced below / above the acceptance probability the pair of
+            # chain states must be exactly exchanged / exactly unchanged, and the returned likelihoods follow the states
+            step = getattr(tempering.chain_swap_step, "py_func", tempering.chain_swap_step)
+            saved_rand = np.random.rand
+            for u, expect_swap in ((0.0, acc > 0.0), (1.0 - 1e-12 if acc < 1.0 else None, False)):
+                if u is None:
+                    continue
+                bi, bj = ai.copy(), aj.copy()
+                np.random.rand = lambda *a_, _u=u: _u
+                try:
+                    ri, rj = step(bi, li, Ti, bj, lj, Tj, logU, F)
+                finally:
+                    np.random.rand = saved_rand
+                chk.count("exchange-step:" + ("accept" if expect_swap else "reject"))
+                want_i, want_j = (aj, ai) if expect_swap else (ai, aj)
+                want_l = (lj, li) if expect_swap else (li, lj)
+                if not (np.array_equal(bi, want_i) and np.array_equal(bj, want_j)):
+                    chk.violation("the temperature exchange does not exchange the two chain states (the pair of states after an accepted "
+                                  "exchange is not the swapped pair / a rejected one changes a state)",
+                                  {**case, "uniform": u, "acceptance": acc, "after_i": bi.tolist(), "after_j": bj.tolist(),
+                                   "expected_i": want_i.tolist(), "expected_j": want_j.tolist()}, "C01/exchange/state-swap")
+                elif not (C.close_log(float(ri), want_l[0]) and C.close_log(float(rj), want_l[1])):
+                    chk.violation("the temperature exchange returns likelihoods that do not belong to the states the chains now hold",
+                                  {**case, "uniform": u, "returned": [float(ri), float(rj)], "expected": list(want_l)}, "C01/exchange/llk-follows-state")
+
+            # the compiled step where its outcome does not depend on the draw (acceptance exactly 1)
+            if acc == 1.0:
+                bi, bj = ai.copy(), aj.copy()
+                ri, rj = tempering.chain_swap_step(bi, li, Ti, bj, lj, Tj, logU, F)
+                chk.count("exchange-step:compiled-accept")
+                if not (np.array_equal(bi, aj) and np.array_equal(bj, ai) and C.close_log(float(ri), lj) and C.close_log(float(rj), li)):
+                    chk.violation("the compiled temperature exchange does not exchange the two chain states and their likelihoods",
+                                  {**case, "acceptance": acc, "after_i": bi.tolist(), "after_j": bj.tolist(), "returned": [float(ri), float(rj)]},
+                                  "C01/exchange/state-swap")
+
         # ------------------------------------------------------------------ implementation oracle: exact DB on enumerated instances
         n_inst = {"warm": 1, "quick": 3, "thorough": 14}[tier]
         for inst in range(n_inst):
